@@ -210,6 +210,22 @@ class AbstractSpatialMap(AbstractObj):
         if name == 'getUnconstrainedDim':
             tr.globals_a['SPEC_DOF'] = INT
             return E.idx('SPEC_DOF', tr.scalar(args[0]), INT)
+        from values import ExprMat
+        D = tr.frame.this.cfg['DIM']
+        if name == 'toPhysical':
+            # (unconstrained coordinates of point i, i) -> physical point: a function of the decision vector and i; within one
+            # evaluation (fixed decision vector) named by the spec arrays SPEC_PHYS_c<d>[i]
+            i = tr.scalar(args[1])
+            for d in range(D):
+                tr.globals_a['SPEC_PHYS_c%d' % d] = REAL
+            return ExprMat(D, 1, lambda r, c, i=i: E.idx('SPEC_PHYS_c%d' % r, i, REAL))
+        if name == 'backwardGrad':
+            # (xi, physical gradient, i) -> unconstrained gradient of point i, DOF[i] <= 64 entries: named SPEC_BACK[64 i + r]
+            # (a fresh name per call site would also do; what it equals is the map's business, see C07)
+            i = tr.scalar(args[2])
+            tr.globals_a['SPEC_BACK'] = REAL
+            tr.spatial_back_calls = getattr(tr, 'spatial_back_calls', []) + [(i, args[1])]
+            return ExprMat(E.idx('SPEC_DOF', i, INT), 1, lambda r, c, i=i: E.idx('SPEC_BACK', i * 64 + E.const(r), REAL))
         raise ValueError('abstract spatial map: no rule for %s' % name)
 
 
@@ -379,3 +395,304 @@ class SetSpatialMap(Contract):
         for label, q in layout_ok(S, OFF):
             S.ensures(under(mk_not(S.layout_dirty_), q), 'kept_cache_matches_new_configuration_' + label)
         S.ensures(mk_not(S.v('active_spatial_map_').null()), 'never_null')
+
+
+# ================================================================================================ running-cost quadrature (C08, C12, C07)
+from values import Mat, ScalarVar, CellRef, LambdaV, VOID
+from ir import Havoc, Assume
+from speclib import der
+
+
+class AbstractIntegralCost(AbstractObj):
+    """user running-cost functor, known only through its protocol
+         double operator()(t, t_global, i, p, v, a, j, s, gp&, gv&, ga&, gj&, gs&, gt&)
+    it returns some value and may write its six by-reference gradient outputs; nothing else is assumed about it.
+    Ghost anchors 'integral_cost.call' (names arg0..arg13) and 'integral_cost.ret' (additionally ret) let the caller's
+    contract state what every sample must carry."""
+
+    def call(self, tr, name, args, n):
+        ns = tr.namespace()
+        for j, a in enumerate(args):
+            ns['arg%d' % j] = a
+        tr.anchor('integral_cost.call', ns)
+        for o in args[8:14]:
+            if isinstance(o, Mat):
+                R, C = tr.dims_const(o)
+                tr.emit(Havoc(scalars=[(o.lv(r, c).name, REAL) for r in range(R) for c in range(C)]))
+            elif isinstance(o, (ScalarVar, CellRef)):
+                tr.emit(Havoc(scalars=[(o.lv().name, REAL)]))
+            else:
+                raise ValueError('running-cost functor: unexpected gradient output %r' % (o,))
+        r = tr.new_scalar('cost_val', REAL)
+        tr.emit(Havoc(scalars=[(r.name, REAL)]))
+        ns = dict(ns)
+        ns['ret'] = r
+        tr.anchor('integral_cost.ret', ns)
+        return r.rd()
+
+
+class ParallelForExecutor(AbstractObj):
+    """executor(start, end, f), known only through its protocol: f(i) is invoked exactly once for every start <= i < end, in
+    any order and on any threads.  The callback is translated once, for an arbitrary fixed index (a never-assigned int
+    'seg_i' with start <= seg_i < end); anchors 'executor.begin' / 'executor.end' (name idx) carry the contract's per-index
+    pre/postcondition, after which the contract generalises over all indices.  The generalisation is the parallel-for rule;
+    its side condition (the callback for index i writes only cells owned by i and reads no cell owned by another index) is
+    discharged as the frame obligations of property C12."""
+
+    def call(self, tr, name, args, n):
+        start, end, f = args
+        i = tr.new_scalar('seg_i', INT)
+        tr.never_assigned_globals = getattr(tr, 'never_assigned_globals', []) + [i.name]
+        tr.emit(Assume((i.rd() >= tr.scalar(start)) & (i.rd() < tr.scalar(end)), 'executor calls f(i) for start <= i < end'))
+        ns = tr.namespace()
+        ns['idx'] = i
+        tr.anchor('executor.begin', ns)
+        before_s, before_a = set(tr.globals_s), set(tr.globals_a)
+        mark = len(tr.block)
+        if not isinstance(f, LambdaV):
+            raise ValueError('executor callback is not a lambda')
+        tr.call_lambda(f, [i.rd()], n)
+        self.index = i
+        self.stmts = tr.block[mark:]
+        self.local_scalars = set(tr.globals_s) - before_s
+        self.local_arrays = set(tr.globals_a) - before_a
+        tr.anchor('executor.end', ns)
+        return VOID
+
+
+def trap_weight(k, K):
+    return ite(k.eq(0) | k.eq(K), E.const(Fraction(1, 2)), E.const(Fraction(1)))
+
+
+@register
+class CalculateIntegralCost(Contract):
+    """segment start times are the prefix sums of the durations; every sample handed to the running cost carries
+    (k T_i / K, start of segment i + that, i, and the 0th..4th derivatives of piece i there); the cost grows by the sum over
+    segments of the composite trapezoid rule with K steps applied to the values the functor returned."""
+    key = 'SplineOptimizer.calculateIntegralCost'
+
+    def spec(self, S):
+        D = S.cfg['DIM']
+        nc = order_of(S) + 1
+        N, K = S.num_segments_, S.integral_num_steps_
+        ws = S.v('ws')
+        T, SS, SC, XB = (ws.fields[f] for f in ('cache_times', 'segment_start_times', 'segment_costs', 'explicit_time_grad_buffer'))
+        C = ws.fields['spline'].fields['trajectory_'].fields['coefficients_']
+        gdC, gdT = S.v('gdC'), S.v('gdT')
+        S.requires((N >= 0) & (N <= NMAX) & (K >= 1) & (K <= NMAX), 'sizes_sane')
+        S.requires(T.size().eq(N) & SS.size().eq(N) & SC.size().eq(N) & XB.R.eq(N) & gdT.R.eq(N) & gdC.R.eq(nc * N) & C.R.eq(nc * N), 'workspace_sized_for_N')
+        S.i2r_axioms()
+        RK, _ = S.spec_array('RK')
+        rk = RK(0)
+        (S.ensures if S.mode == 'call' else S.requires)((to_real(K) * rk).eq(1), 'def_one_over_K')      # definition of 1/K (K >= 1)
+        PT = S.define_prefix_sum('PT', N, lambda i: T.at(i))
+        TRAP, _ = S.spec_array('TRAP', shared=True)
+        PTRAP = S.define_prefix_sum('PTRAP', N, lambda i: TRAP(i))
+        S.assigns(SS, SC, XB, gdC, gdT, S.v('cost'))
+        S.ensures(S.forall(0, N, lambda i: SS.at(i).eq(S.start_time_ + PT(i))), 'segment_start_is_start_time_plus_elapsed_durations')
+        S.ensures(S.cost.eq(S.old.cost + PTRAP(N)), 'cost_grows_by_sum_of_segment_trapezoid_sums')
+        S.ensures(SS.size().eq(N) & SC.size().eq(N) & XB.R.eq(N) & gdT.R.eq(N) & gdC.R.eq(nc * N), 'buffer_sizes_unchanged')
+        S.terms(0, N)
+        if S.mode != 'verify':
+            return
+        ex = S.gen.fn.params['executor']
+        S.loop(0, inv=lambda L: [
+            ('range', (L.i >= 0) & (L.i <= N)),
+            ('running_time', L.running_time.eq(S.start_time_ + PT(L.i))),
+            ('start_times', S.forall(0, L.i, lambda j: SS.at(j).eq(S.start_time_ + PT(j)))),
+        ], variant=lambda L: N - L.i, terms=lambda L: [L.i])
+        # ---- one callback invocation, arbitrary index
+        CV, _ = S.spec_array('CV')           # CV[k]: the value the functor returned for sample k of this segment (a name)
+        idx = lambda: ex.index.rd()
+        S.terms(idx(), idx() + 1)
+        Ti = lambda: T.at(idx())
+        PS = S.define_prefix_sum('PS', K + 1, lambda k: trap_weight(k, K) * (Ti() * rk) * CV(k))
+        kvar = {}
+
+        def loop1_inv(L):
+            kvar['k'] = L.i
+            return [('range', (L.i >= 0) & (L.i <= K + 1)),
+                    ('partial_trapezoid_sum', L.local_acc_cost.eq(PS(L.i)))]
+        S.loop(1, inv=loop1_inv, variant=lambda L: K + 1 - L.i, terms=lambda L: [L.i])
+
+        def at_call(G):
+            ns = G.ctx
+            k = kvar['k']
+            t = ns.arg0
+            G.lemma(t.eq(to_real(k) * rk * Ti()), 'sample_local_time_is_k_T_over_K')
+            G.lemma(ns.arg1.eq(S.start_time_ + PT(idx()) + t), 'sample_global_time_is_start_plus_elapsed_plus_local')
+            G.lemma(ns.arg2.eq(idx()), 'sample_segment_index')
+            for m, nm in enumerate(['position', 'velocity', 'acceleration', 'jerk', 'snap']):
+                val = ns.v('arg%d' % (3 + m))
+                for d in range(D):
+                    G.lemma(val.at(d, 0).eq(der(C, nc, idx(), m, t, d)), 'sample_%s_is_derivative_%d_of_piece_coord%d' % (nm, m, d))
+        S.ghost('integral_cost.call', at_call)
+        S.ghost('integral_cost.ret', lambda G: G.assume_fact(G.ctx.ret.eq(CV(kvar['k'])), 'CV[k] names the value returned for sample k'))
+
+        def at_end(G):
+            G.lemma(SC.at(idx()).eq(PS(K + 1)), 'segment_cost_is_trapezoid_sum')
+            G.assume_fact(TRAP(idx()).eq(PS(K + 1)), 'TRAP[i] names the trapezoid sum of segment i')
+            # parallel-for rule: every index has been processed exactly once, each writing only its own cells
+            G.havoc(arrays=[(a, REAL) for a in (SC.arr, )])
+            G.assume_fact(S.forall(0, N, lambda i: SC.at(i).eq(TRAP(i))), 'parallel-for: per-index postcondition for all indices')
+        S.ghost('executor.end', at_end)
+        S.loop(3, inv=lambda L: [
+            ('range', (L.i >= 0) & (L.i <= N)),
+            ('partial_cost', S.cost.eq(S.old.cost + PTRAP(L.i))),
+        ], variant=lambda L: N - L.i, terms=lambda L: [L.i])
+        S.loop(4, inv=lambda L: [('range', (L.i >= -1) & (L.i <= N - 1))], variant=lambda L: L.i, terms=lambda L: [L.i])
+
+
+class AbstractCostFunctor(AbstractObj):
+    """user time cost / waypoint cost: double operator()(const Data&, Gradient& out); returns some value, may overwrite the
+    contents of its gradient buffer (not its size).  Anchors '<tag>.call' (arg0, arg1) and '<tag>.ret' (ret)."""
+
+    def __init__(self, tag):
+        self.tag = tag
+
+    def call(self, tr, name, args, n):
+        ns = tr.namespace()
+        for j, a in enumerate(args):
+            ns['arg%d' % j] = a
+        tr.anchor(self.tag + '.call', ns)
+        out = args[1]
+        _, arrs = out.storage()
+        tr.emit(Havoc(arrays=arrs))
+        r = tr.new_scalar(self.tag + '_val', REAL)
+        tr.emit(Havoc(scalars=[(r.name, REAL)]))
+        ns = dict(ns)
+        ns['ret'] = r
+        tr.anchor(self.tag + '.ret', ns)
+        return r.rd()
+
+
+def optimised_point(S, p):
+    """waypoint p is a decision variable: inner points always, first/last when flagged"""
+    return (p >= first_idx(S)) & (p < first_idx(S) + n_entries(S))
+
+
+def bc_slots(S):
+    """(field, flag) of the boundary-derivative blocks in decision-vector order"""
+    o = order_of(S)
+    out = [('start_velocity', 'start_v')]
+    if o >= 5:
+        out.append(('start_acceleration', 'start_a'))
+    if o >= 7:
+        out.append(('start_jerk', 'start_j'))
+    out.append(('end_velocity', 'end_v'))
+    if o >= 5:
+        out.append(('end_acceleration', 'end_a'))
+    if o >= 7:
+        out.append(('end_jerk', 'end_j'))
+    return out
+
+
+def quad_inv_time_is(T, tau):
+    """T = toTime(tau) of the bundled quadratic-inverse map, stated without division"""
+    half = E.const(Fraction(1, 2))
+    return ite(tau > 0, T.eq(half * tau * tau + tau + 1), (T * (half * tau * tau - tau + 1)).eq(1))
+
+
+WS_BUFFERS = [('cache_waypoints', 1), ('cache_gdT', 0), ('user_gdT_buffer', 0), ('explicit_time_grad_buffer', 0), ('discrete_grad_q_buffer', 1)]
+
+
+@register
+class Evaluate(Contract):
+    """three-cost evaluate with a caller-supplied workspace: decode, cost assembly (C08); gradient assembly (C07)"""
+    key = 'SplineOptimizer.evaluate'
+    nparams = 7
+
+    def spec(self, S):
+        D = S.cfg['DIM']
+        nc = order_of(S) + 1
+        N, K = S.num_segments_, S.integral_num_steps_
+        x, gout = S.v('x'), S.v('grad_out')
+        ws = S.v('ws').target
+        fl = flags(S)
+        W = lambda f: ws.fields[f]
+        T = W('cache_times')
+        OFF = layout_defs(S)
+        for label, p in layout_ok(S, OFF):
+            S.requires(under(mk_not(S.layout_dirty_), p), 'layout_invariant_' + label)
+        cnt = n_entries(S)
+        doff = OFF(cnt)
+        dim = doff + n_blocks(S) * D
+        S.requires((N >= 1) & (N <= NMAX) & (K >= 1) & (K <= NMAX) & S.v('ref_waypoints_').R.eq(N + 1), 'configured_problem')
+        S.requires(x.R.eq(dim), 'decision_vector_has_the_layout_dimension')
+        m = T.size()
+        S.requires((m >= 0) & (m <= NMAX) & W('segment_start_times').size().eq(m) & W('segment_costs').size().eq(m) &
+                   W('cache_gdC').R.eq(nc * m) & conj([W(f).R.eq(m + extra) for f, extra in WS_BUFFERS]), 'workspace_buffers_sized_consistently')
+        S.terms(0, N, N - 1, cnt, cnt - 1)
+        S.assigns(ws, gout, *[S.v(v) for v in LAYOUT_STATE])
+        tc, wc, trap, en = (S.fresh_real(b) for b in ('tcv', 'wcv', 'trapv', 'env'))
+        S.ensures(S.result.eq(tc + wc + trap + ite(S.rho_energy_ > 0, S.rho_energy_ * en, 0)),
+                  'cost_is_time_cost_plus_waypoint_cost_plus_quadrature_plus_weighted_energy')
+        if S.mode != 'verify':
+            return
+        from ir import LV
+        lv = lambda e: LV(e.args[0], REAL)
+        PH = lambda p, d: E.idx('SPEC_PHYS_c%d' % d, p, REAL)
+        ref = S.v('ref_waypoints_')
+        CW = W('cache_waypoints')
+        lay = S.v('spatial_layout_')
+        decoded_row = lambda p, d: ite(optimised_point(S, p), PH(p, d), ref.at(p, d))
+        # offsets are non-decreasing (unconstrained dimensions are non-negative): OFF(cnt - j) <= OFF(cnt), by induction on j
+        S.terms(cnt - S.sk(0) - 1, cnt - S.sk(0))
+        S.ghost('entry', lambda G: G.induction(0, cnt + 1, lambda j: [OFF(cnt - j) <= OFF(cnt)], 'offsets_below_total'))
+        # ---- decode
+        S.loop(0, inv=lambda L: [
+            ('range', (L.i >= 0) & (L.i <= N)),
+            ('durations_decoded', S.forall(0, L.i, lambda j: quad_inv_time_is(T.at(j), x.at(j, 0)))),
+        ], variant=lambda L: N - L.i, terms=lambda L: [L.i])
+        lay_inv = lambda: [
+            ('layout_size', lay.size().eq(cnt) & mk_not(S.layout_dirty_)),
+            ('layout_entries', S.forall(0, lay.size(), lambda k: conj([
+                lay.elem(k).field('point_index').rd().eq(k + first_idx(S)),
+                lay.elem(k).field('dof').rd().eq(DOF(k + first_idx(S))),
+                lay.elem(k).field('offset').rd().eq(OFF(k))]))),
+            ('offsets_below_total', S.forall(0, cnt + 1, lambda j: OFF(cnt - j) <= OFF(cnt)))]
+        S.loop(1, inv=lambda L: lay_inv() + [
+            ('range', (L.i >= 0) & (L.i <= lay.size())),
+            ('waypoints_decoded_so_far', S.forall(0, N + 1, lambda p: [
+                CW.at(p, d).eq(ite((p >= first_idx(S)) & (p < first_idx(S) + L.i), PH(p, d), ref.at(p, d))) for d in range(D)])),
+        ], variant=lambda L: lay.size() - L.i, terms=lambda L: [L.i, L.i + first_idx(S), cnt - L.i - 1, cnt - L.i, L.i + 1])
+
+        def before_update(G):
+            ns = G.ctx
+            same = lambda a, b: E.const(a is b or getattr(a, 'name', 1) == getattr(b, 'name', 2))
+            G.lemma(same(ns.v('callee'), W('spline')), 'workspace_spline_is_updated')
+            G.lemma(same(ns.v('carg0'), T), 'update_receives_decoded_durations')
+            G.lemma(same(ns.v('carg1'), CW), 'update_receives_decoded_waypoints')
+            G.lemma(ns.carg2.eq(S.start_time_), 'update_receives_start_time')
+            bc = ns.v('carg3')
+            refbc = S.v('ref_bc_')
+            rank = E.const(0)
+            for f, flag in bc_slots(S):
+                for d in range(D):
+                    G.lemma(bc.fields[f].at(d, 0).eq(ite(fl[flag], x.at(doff + rank * D + d, 0), refbc.fields[f].at(d, 0))),
+                            'boundary_%s_decoded_coord%d' % (f, d))
+                rank = rank + ite(fl[flag], 1, 0)
+            sk = S.sk(0)
+            G.lemma(implies((sk >= 0) & (sk < N), quad_inv_time_is(T.at(sk), x.at(sk, 0))), 'durations_are_time_map_of_first_N_variables')
+            for d in range(D):
+                G.lemma(implies((sk >= 0) & (sk <= N), CW.at(sk, d).eq(decoded_row(sk, d))), 'waypoints_are_spatial_map_of_layout_entries_else_reference_coord%d' % d)
+        S.ghost('call.update.before', before_update)
+
+        def time_call(G):
+            ns = G.ctx
+            G.lemma(E.const(ns.v('arg0') is T or getattr(ns.v('arg0'), 'name', 1) == T.name), 'time_cost_receives_decoded_durations')
+        S.ghost('time_cost.call', time_call)
+        S.ghost('time_cost.ret', lambda G: G.set(lv(tc), G.ctx.ret))
+
+        def wp_call(G):
+            ns = G.ctx
+            G.lemma(E.const(getattr(ns.v('arg0'), 'name', 1) == CW.name), 'waypoint_cost_receives_decoded_waypoints')
+        S.ghost('waypoints_cost.call', wp_call)
+        S.ghost('waypoints_cost.ret', lambda G: G.set(lv(wc), G.ctx.ret))
+        snap = S.fresh_real('cost_before_quadrature')
+        S.ghost('call.calculateIntegralCost.before', lambda G: G.set(lv(snap), G.ctx.total_cost))
+        S.ghost('call.calculateIntegralCost.after', lambda G: G.set(lv(trap), G.ctx.total_cost - snap))
+        S.ghost('call.getEnergy.after', lambda G: G.set(lv(en), G.ctx.ret))
+        # ---- gradient write-back loops: shapes only here
+        S.loop(2, inv=lambda L: [('range', (L.i >= 0) & (L.i <= N))], variant=lambda L: N - L.i, terms=lambda L: [L.i])
+        S.loop(3, inv=lambda L: lay_inv() + [('range', (L.i >= 0) & (L.i <= lay.size()))], variant=lambda L: lay.size() - L.i, terms=lambda L: [L.i, L.i + 1, cnt - L.i - 1, cnt - L.i])
